@@ -286,6 +286,33 @@ def judge_acl(case) -> Verdict:
     v.label("acl", "native" if native else "foreign", "grouped" if acl_case.get("group_by") else "flat",
             f"indent={len(kw['indent'])}")
     v.nt(len(acl_case["items"]) >= 2 or norm(t1) != norm(text))
+    flips = case.get("flips") or []
+    if flips and native and not v.fails:
+        # the switches changed in place after construction: the text rendered then is a fixed point of the parser
+        # called with the object's current switches
+        o, kw2 = Acl(text, **kw), dict(kw)
+        for sw, val in flips:
+            if sw not in ("port_nr", "protocol_nr") or not isinstance(val, bool):
+                raise Invalid()
+            setattr(o, sw, val)
+            kw2[sw] = val
+            tf = o.line
+            try:
+                of = Acl(tf, **kw2)
+            except (ValueError, TypeError) as ex:
+                v.fail("Acl:after-switch-in-place:rendered-text-rejected", {"input": text, "rendered": tf, "kw": _kw(kw2),
+                                                                            "error": f"{type(ex).__name__}: {ex}"[:200]})
+                break
+            if of.line != tf:
+                v.fail("Acl:after-switch-in-place:not-a-fixpoint", {"input": text, "flips": flips, "t1": tf, "t2": of.line,
+                                                                    "kw": _kw(kw2)})
+                break
+            if of.data() != o.data():
+                d1, d2 = o.data(), of.data()
+                v.fail("Acl:after-switch-in-place:data-differs", {"input": text, "flips": flips,
+                                                                  "keys": [k for k in d1 if d1.get(k) != d2.get(k)]})
+                break
+        v.label("switch-in-place")
     # config-level functions: indent >= 1, non-empty body
     if kw["indent"] and acl_case["items"] and native and not v.fails:
         fkw = dict(kw)
@@ -339,7 +366,11 @@ def acl_case_st(draw, tier):
     acl["name"] = draw(st.sampled_from(["T", "ACL-1", "acl_x.y", "110", "a(b)c", "X&Y", "n:1/2"]))
     if draw(st.sampled_from(range(10))) == 0:
         acl["indent"] = ""
-    return {"acl": acl, "level": draw(st.sampled_from(["acl", "acl", "acl", "acegroup"])), "noise": draw(st.booleans())}
+    case = {"acl": acl, "level": draw(st.sampled_from(["acl", "acl", "acl", "acegroup"])), "noise": draw(st.booleans())}
+    if draw(st.sampled_from(range(3))) == 0:
+        case["flips"] = [[draw(st.sampled_from(["port_nr", "protocol_nr"])), draw(st.booleans())]
+                         for _ in range(draw(st.integers(1, 3)))]
+    return case
 
 
 def judge_std_acl(case) -> Verdict:
